@@ -210,7 +210,8 @@ ImplicitDropTerm(st, aid) ==
   THEN [st |-> Terminate(f.st, aid, "dropped"),
         bad |-> B(~f.ok, "C04", "Dropped termination overtook earlier queued calls")]
   ELSE [st |-> Terminate(st, aid, "dropped"),
-        bad |-> {<<"C04", "actor terminated as Dropped although no last-owner drop is pending">>}]
+        bad |-> {<<"C04", "actor terminated as Dropped although no last-owner drop is pending">>,
+                 <<"C03", "actor terminated as Dropped although no such termination request was issued">>}]
 
 LevelAllowed(st, lvl) == st.logOn /\ lvl \in st.filter
 
@@ -245,7 +246,8 @@ ApplySub(st, e) ==
       void == st.alive = "dead" \/
               (st.alive = "dropping" /\ st.dhq # << >> /\ st.dhq[Len(st.dhq)] \in {"lazy", "idle", "timer"})
       rec == [q |-> IF void THEN "void" ELSE e.q, s |-> "p",
-              aid |-> aid, prep |-> prep, tid |-> 0]
+              aid |-> aid, prep |-> prep, tid |-> 0,
+              hr |-> IF "hr" \in DOMAIN e THEN {e.hr[i] : i \in 1..Len(e.hr)} ELSE {}]
       s1 == [st EXCEPT !.items = Put(@, id, rec)]
       dup == B(Has(st.items, id), "C01", "harness: duplicate item id")
   IN IF void THEN R(s1, dup)
@@ -473,7 +475,8 @@ ApplyTAdd(st, e) ==
       isCall == "aid" \in DOMAIN e
       tm == [kind |-> e.kind, eff |-> e.t, setAt |-> e.now, s |-> "p", item |-> e.item, ord |-> st.tord,
              touch |-> IF st.inRun THEN st.runNo ELSE -1]
-      irec == [q |-> "timer", s |-> "p", aid |-> IF isCall THEN e.aid ELSE 0, prep |-> FALSE, tid |-> tid]
+      irec == [q |-> "timer", s |-> "p", aid |-> IF isCall THEN e.aid ELSE 0, prep |-> FALSE, tid |-> tid,
+               hr |-> IF "hr" \in DOMAIN e THEN {e.hr[i] : i \in 1..Len(e.hr)} ELSE {}]
       s1 == [st EXCEPT !.timers = Put(@, tid, tm), !.tord = @ + 1, !.items = Put(@, e.item, irec),
                        !.drainB = IF st.draining THEN @ + IterBound(st, tm) ELSE @]
   IN R(s1, B(st.depth = 0 /\ st.inRun /\ FALSE, "C07", ""))
@@ -742,6 +745,7 @@ UnreleasedBad(st) ==
       \* calls held for an actor still in Prep live in that actor, not in the Stakker
       left == {i \in DOMAIN st.items : st.items[i].s = "p" /\ st.items[i].q # "void" /\ i \notin heldIds} IN
      B(\E i \in left : st.items[i].q = "main", "C01", "pending main-queue closure not dropped when the Stakker was dropped")
+  \cup B(\E i \in left : st.items[i].hr # {}, "C05", "Ret held by a closure pending at Stakker drop was not invoked with None")
   \cup B(left # {}, "C16", "pending closure not released when the Stakker was dropped")
 
 ApplyDropped(st) ==
@@ -772,7 +776,7 @@ Apply(st, e) ==
     [] e.e = "runend" -> ApplyRunEnd(st, e)
     [] e.e = "apply" ->
          \* direct Actor::apply: runs now (Ready), is held (Prep) or is discarded (Zombie)
-         LET rec == [q |-> "direct", s |-> "p", aid |-> e.aid, prep |-> FALSE, tid |-> 0]
+         LET rec == [q |-> "direct", s |-> "p", aid |-> e.aid, prep |-> FALSE, tid |-> 0, hr |-> {}]
              s1 == [st EXCEPT !.items = Put(@, e.item, rec)]
          IN IF AState(st, e.aid) = "prep"
             THEN R([s1 EXCEPT !.actors[e.aid].held = Append(@, Entry("call", e.item, e.aid, FALSE, 0))], {})
@@ -807,6 +811,13 @@ Apply(st, e) ==
     [] e.e = "ownclone" -> ApplyOwnClone(st, e)
     [] e.e = "vdrop" -> ApplyVDrop(st, e)
     [] e.e = "notify" -> ApplyNotify(st, e)
+    [] e.e = "pslabdrop" ->
+         IF ~Has(st.actors, e.aid) THEN R(st, {}) ELSE
+         LET kids == IF st.alive = "live" THEN st.actors[e.aid].slab ELSE {}
+             kseq == SetToSeq(kids)
+             terms == [i \in 1..Len(kseq) |-> [Entry("term", 0, kseq[i], FALSE, Tag(st)) EXCEPT !.grp = 2000 + e.aid]]
+         IN R([st EXCEPT !.actors = [x \in DOMAIN @ |-> IF x \in kids THEN [@[x] EXCEPT !.own = @ - 1] ELSE @[x]],
+                         !.mainQ = @ \o SelectSeq(terms, LAMBDA t : st.actors[t.aid].own = 1)], {})
     [] e.e = "zombie" -> ApplyZombie(st, e)
     [] e.e = "slablen" -> ApplySlabLen(st, e)
     [] e.e = "mkret" -> ApplyMkRet(st, e)
